@@ -26,22 +26,151 @@
 // Well-formed states (`wf`): every stored balance < limit; the schedule lists
 // every bucket id exactly once, sorted by instant; `now` is not before any entry
 // (the statement quantifies over non-decreasing timestamps).
-// Bound: <= 2 buckets over 3 identities; timestamps within 2^TBITS microseconds of
-// an arbitrary base; interval 1..2^IBITS microseconds; limit over all u32 >= 1.
+// Bound: <= 2 buckets over 3 identities; timestamps whole seconds within 2^TBITS s of
+// an arbitrary base; interval 1..2^IBITS s; limit over all u32 >= 1.
 
 use std::net::Ipv4Addr;
 
-const TBITS: u32 = 12;
+// The bodies of `try_next` and `refill`, cut verbatim out of /repo on every run
+// (unit.json `fragments`) and compiled as methods of `FragLimiter`, an environment
+// struct with exactly the four fields of GenericRateLimiter.  What differs from the
+// shipped type, all of it declared:
+//   * `refill_schedule` is `Fifo`, a fixed-array stand-in for std VecDeque (ASSUMED:
+//     VecDeque is a FIFO queue; measured reason: with the heap VecDeque CBMC ran out
+//     of memory after ~410 s on every state with a live bucket -- grow/realloc paths
+//     in each unwound iteration of the refill loop);
+//   * `buckets` is whatever `HashMap` the module imports (the dependency shim in the
+//     shim tree);
+//   * ONE rewrite of the text: `.checked_div(` -> `.verif_checked_div(`.  CBMC cannot
+//     decide a 128-bit divider; the stand-in is the mathematical contract of u128
+//     division, and the arithmetic around it (as_micros truncation, try_into,
+//     saturating add) is Verus' obligation in units/C48/refill_arith.vspec.
+// The real GenericRateLimiter (real VecDeque) is still executed by the two
+// concrete-schedule harnesses at the end of this file.
+pub(crate) struct FragLimiter<Id> {
+    limit: u32,
+    interval: Duration,
+    refill_schedule: Fifo<(Instant, Id)>,
+    buckets: HashMap<Id, u32>,
+}
+include!(concat!(env!("LIBP2P_VERIF_GEN"), "/C48/limiter_fragment.rs"));
+
+/// FIFO stand-in for VecDeque: capacity 4, entries kept compacted at the front, every
+/// access at a constant index.  Exceeding the capacity panics with the shim marker
+/// (reported UNDECIDED, never as a violation).
+pub(crate) struct Fifo<T> {
+    slots: [Option<T>; 4],
+}
+impl<T> Fifo<T> {
+    fn new() -> Self {
+        Fifo { slots: [None, None, None, None] }
+    }
+    pub(crate) fn front(&self) -> Option<&T> {
+        self.slots[0].as_ref()
+    }
+    pub(crate) fn pop_front(&mut self) -> Option<T> {
+        let f = self.slots[0].take();
+        self.slots[0] = self.slots[1].take();
+        self.slots[1] = self.slots[2].take();
+        self.slots[2] = self.slots[3].take();
+        f
+    }
+    pub(crate) fn push_back(&mut self, t: T) {
+        if self.slots[0].is_none() {
+            self.slots[0] = Some(t);
+        } else if self.slots[1].is_none() {
+            self.slots[1] = Some(t);
+        } else if self.slots[2].is_none() {
+            self.slots[2] = Some(t);
+        } else if self.slots[3].is_none() {
+            self.slots[3] = Some(t);
+        } else {
+            panic!("verif shim capacity exceeded")
+        }
+    }
+    fn len(&self) -> usize {
+        self.slots[0].is_some() as usize
+            + self.slots[1].is_some() as usize
+            + self.slots[2].is_some() as usize
+            + self.slots[3].is_some() as usize
+    }
+    /// entries are compacted: slot i is the i-th element from the front
+    fn nth(&self, i: usize) -> Option<&T> {
+        match i {
+            0 => self.slots[0].as_ref(),
+            1 => self.slots[1].as_ref(),
+            2 => self.slots[2].as_ref(),
+            3 => self.slots[3].as_ref(),
+            _ => None,
+        }
+    }
+}
+
+/// operands of the division stay below this in every harness (asserted, never assumed)
+const DIV_BOUND: u128 = 1 << 31;
+
+/// ghost log of the divisions the extracted text performed: (dividend, divisor, quotient)
+static mut DIV_LOG: [(u128, u128, u32); 3] = [(0, 0, 0); 3];
+static mut DIV_CALLS: usize = 0;
+fn div_log(i: usize) -> (u128, u128, u32) {
+    unsafe {
+        match i {
+            0 => DIV_LOG[0],
+            1 => DIV_LOG[1],
+            _ => DIV_LOG[2],
+        }
+    }
+}
+fn div_calls() -> usize {
+    unsafe { DIV_CALLS }
+}
+
+pub(crate) trait VerifCheckedDiv {
+    fn verif_checked_div(self, rhs: u128) -> Option<u128>;
+}
+impl VerifCheckedDiv for u128 {
+    /// ASSUMED contract of `u128::checked_div`: None for a zero divisor, otherwise the
+    /// unique q with q*rhs <= self < (q+1)*rhs.  Each call is recorded in the ghost log,
+    /// so a harness states "the division was applied to THESE operands and its quotient
+    /// was used THUS" without re-deriving the quotient (no second multiplier to match).
+    fn verif_checked_div(self, rhs: u128) -> Option<u128> {
+        if rhs == 0 {
+            return None;
+        }
+        assert!(self < DIV_BOUND && rhs < DIV_BOUND, "C48 harness bound: division operands below 2^31");
+        // operands and quotient are structurally 32 bits wide: one 32x32 multiplier
+        let a = (self as u32) as u64;
+        let b = (rhs as u32) as u64;
+        let q32 = kani::any::<u32>();
+        let q = q32 as u64;
+        kani::assume(q * b <= a && a - q * b < b);
+        // consequences of the line above, spelled out for the solver (not extra assumptions)
+        kani::assume(q <= a);
+        kani::assume(a < b || q >= 1);
+        unsafe {
+            match DIV_CALLS {
+                0 => DIV_LOG[0] = (self, rhs, q32),
+                1 => DIV_LOG[1] = (self, rhs, q32),
+                2 => DIV_LOG[2] = (self, rhs, q32),
+                _ => panic!("verif shim capacity exceeded"),
+            }
+            DIV_CALLS += 1;
+        }
+        Some(q as u128)
+    }
+}
+
+const TBITS: u32 = 10; // (2^10 s) * 10^6 us stays below DIV_BOUND
 const IBITS: u32 = 6;
 
 fn base() -> Instant {
-    // an arbitrary origin: zero instant + up to ~136 years
+    // an arbitrary origin: zero instant + up to ~136 years (whole seconds)
     let z: Instant = unsafe { std::mem::zeroed() };
     let s: u32 = kani::any();
-    z + Duration::from_secs(s as u64)
+    z + Duration::new(s as u64, 0)
 }
 fn at(b: Instant, t: u32) -> Instant {
-    b + Duration::from_micros(t as u64)
+    b + Duration::new(t as u64, 0)
 }
 fn any_time() -> u32 {
     let t: u32 = kani::any();
@@ -58,7 +187,7 @@ fn any_id() -> u8 {
 #[derive(Clone, Copy)]
 struct Spec {
     limit: u32,
-    interval: u32, // microseconds
+    interval: u32, // seconds
     n: usize,
     id: [u8; 2],
     t: [u32; 2],
@@ -82,11 +211,15 @@ fn any_spec(n: usize) -> Spec {
     s
 }
 
-fn build(s: &Spec, b: Instant) -> GenericRateLimiter<u8> {
-    let mut l = GenericRateLimiter::<u8>::new(GenericRateLimiterConfig {
-        limit: NonZeroU32::new(s.limit).unwrap(),
-        interval: Duration::from_micros(s.interval as u64),
-    });
+fn build(s: &Spec, b: Instant) -> FragLimiter<u8> {
+    // same initial state as GenericRateLimiter::new (which also asserts a non-zero interval)
+    let mut l = FragLimiter::<u8> {
+        limit: NonZeroU32::new(s.limit).unwrap().into(),
+        interval: Duration::new(s.interval as u64, 0),
+        refill_schedule: Fifo::new(),
+        buckets: Default::default(),
+    };
+    assert!(!l.interval.is_zero());
     let mut i = 0;
     while i < 2 {
         if i < s.n {
@@ -120,37 +253,59 @@ fn last_refill(s: &Spec, id: u8) -> Option<u32> {
     None
 }
 
-/// floor(d / iv) without a division: the unique q with q*iv <= d < (q+1)*iv
-fn floor_div(d: u32, iv: u32) -> u32 {
-    let q: u32 = kani::any();
-    kani::assume((q as u64) * (iv as u64) <= d as u64);
-    kani::assume((d as u64) < (q as u64 + 1) * (iv as u64));
-    q
+/// index of `id`'s bucket in the abstract state (= its position in the schedule)
+fn spec_index(s: &Spec, id: u8) -> usize {
+    if s.n > 0 && s.id[0] == id { 0 } else { 1 }
 }
 
-/// the token-bucket refill of one bucket at time `now`: (tokens, last refill); tokens == limit means "full, forgotten"
-fn spec_refill(limit: u32, interval: u32, bal: u32, t: u32, now: u32) -> (u32, u32) {
-    let d = now - t;
-    if d < interval {
-        return (bal, t);
+/// The token-bucket refill of bucket `i`, as a relation between the abstract state and
+/// the refilled amount `r` at time `now`:
+///   not yet due (now - t < interval):  r == bal, no division performed for it;
+///   due:  the i-th division (buckets are refilled in schedule order and the due ones
+///         are a prefix of the sorted schedule) was applied to exactly
+///         (elapsed, interval) -- here in microseconds, as the code computes --
+///         and r == min(limit, bal + quotient).
+/// With the division contract (quotient = floor) this is: r = min(limit, bal +
+/// floor(elapsed/interval)), in particular at most floor(elapsed/interval) tokens are
+/// added and at least one.  No multiplication is re-done here.
+fn refilled_ok(s: &Spec, i: usize, now: u32, r: u32) -> bool {
+    let d = now - s.t[i];
+    if d < s.interval {
+        return r == s.bal[i] && div_calls() <= i;
     }
-    let q = floor_div(d, interval);
-    let nb = (bal as u64 + q as u64).min(limit as u64) as u32;
-    (nb, now)
+    let (a, b, q) = div_log(i);
+    div_calls() > i
+        && a == (d as u128) * 1_000_000
+        && b == (s.interval as u128) * 1_000_000
+        && r as u64 == (s.bal[i] as u64 + q as u64).min(s.limit as u64)
+        && q >= 1
+}
+/// does the refill at `now` touch the bucket (is it due)?
+fn due(interval: u32, t: u32, now: u32) -> bool {
+    now - t >= interval
 }
 
 /// concrete tokens / refill time of `id` in the real limiter
-fn real_tokens(l: &GenericRateLimiter<u8>, id: u8) -> u32 {
+fn real_tokens(l: &FragLimiter<u8>, id: u8) -> u32 {
     match l.buckets.get(&id) {
         Some(b) => *b,
         None => l.limit,
     }
 }
-fn real_last_refill(l: &GenericRateLimiter<u8>, id: u8) -> Option<Instant> {
-    l.refill_schedule.iter().find(|(_, i)| *i == id).map(|(t, _)| *t)
+fn real_last_refill(l: &FragLimiter<u8>, id: u8) -> Option<Instant> {
+    let mut i = 0;
+    while i < 4 {
+        if let Some((t, x)) = l.refill_schedule.nth(i) {
+            if *x == id {
+                return Some(*t);
+            }
+        }
+        i += 1;
+    }
+    None
 }
 
-fn real_wf(l: &GenericRateLimiter<u8>, now: Instant) -> bool {
+fn real_wf(l: &FragLimiter<u8>, now: Instant) -> bool {
     let n = l.refill_schedule.len();
     if n != l.buckets.len() || n > 3 {
         return false;
@@ -159,17 +314,22 @@ fn real_wf(l: &GenericRateLimiter<u8>, now: Instant) -> bool {
     let mut i = 0;
     while i < 3 {
         if i < n {
-            let (t, id) = l.refill_schedule[i];
-            match l.buckets.get(&id) {
-                Some(b) => ok &= *b < l.limit,
-                None => ok = false,
-            }
-            ok &= t <= now;
-            let mut j = 0;
-            while j < i {
-                let (tj, idj) = l.refill_schedule[j];
-                ok &= idj != id && tj <= t;
-                j += 1;
+            match l.refill_schedule.nth(i) {
+                None => ok = false, // not compacted
+                Some(&(t, id)) => {
+                    match l.buckets.get(&id) {
+                        Some(b) => ok &= *b < l.limit,
+                        None => ok = false,
+                    }
+                    ok &= t <= now;
+                    let mut j = 0;
+                    while j < i {
+                        if let Some(&(tj, idj)) = l.refill_schedule.nth(j) {
+                            ok &= idj != id && tj <= t;
+                        }
+                        j += 1;
+                    }
+                }
             }
         }
         i += 1;
@@ -177,20 +337,33 @@ fn real_wf(l: &GenericRateLimiter<u8>, now: Instant) -> bool {
     ok
 }
 
-/// after `refill(now)` the real state of identity `id` is the token-bucket refill of its abstract state
-fn check_refilled(l: &GenericRateLimiter<u8>, s: &Spec, b: Instant, id: u8, now: u32, spent: u32) {
+/// after `refill(now)` (and `spent` tokens taken by this call) the real state of identity
+/// `id` is a token-bucket refill of its abstract state
+fn check_refilled(l: &FragLimiter<u8>, s: &Spec, b: Instant, id: u8, now: u32, spent: u32) {
+    let have = real_tokens(l, id);
     match last_refill(s, id) {
         None => {
-            // untouched: still full (minus what this call spent)
-            assert!(real_tokens(l, id) == s.limit - spent);
-        }
-        Some(t) => {
-            let (nb, nt) = spec_refill(s.limit, s.interval, tokens(s, id), t, now);
-            assert!(real_tokens(l, id) == nb - spent, "tokens after refill differ from the token-bucket amount");
-            if real_tokens(l, id) < s.limit {
-                assert!(real_last_refill(l, id) == Some(at(b, nt)));
+            // no bucket: full, minus what this call spent
+            assert!(have == s.limit - spent);
+            if spent > 0 {
+                assert!(real_last_refill(l, id) == Some(at(b, now)));
             } else {
                 assert!(real_last_refill(l, id).is_none());
+            }
+        }
+        Some(t) => {
+            assert!(have <= s.limit - spent, "balance above the limit");
+            let r = have + spent; // the refilled amount, before this call spent anything
+            assert!(
+                refilled_ok(s, spec_index(s, id), now, r),
+                "tokens after refill are not min(limit, balance + floor(elapsed/interval)) of the right operands"
+            );
+            if have == s.limit {
+                assert!(real_last_refill(l, id).is_none());
+            } else if due(s.interval, t, now) || r == s.limit {
+                assert!(real_last_refill(l, id) == Some(at(b, now)));
+            } else {
+                assert!(real_last_refill(l, id) == Some(at(b, t)));
             }
         }
     }
@@ -203,7 +376,7 @@ fn refill_adds_floor_elapsed_over_interval_capped_at_limit(n: usize) {
     let now = any_time();
     kani::assume(s.n == 0 || s.t[s.n - 1] <= now);
     let mut l = build(&s, b);
-    l.refill(at(b, now));
+    l.frag_refill(at(b, now));
     assert!(real_wf(&l, at(b, now)));
     check_refilled(&l, &s, b, 0, now, 0);
     check_refilled(&l, &s, b, 1, now, 0);
@@ -220,13 +393,14 @@ fn try_next_takes_exactly_one_token_iff_available(n: usize) {
     kani::assume(s.n == 0 || s.t[s.n - 1] <= now);
     let id = any_id();
     let mut l = build(&s, b);
+    // a token is available after the refill: no bucket (full), or a positive balance, or due
     let avail = match last_refill(&s, id) {
-        None => s.limit,
-        Some(t) => spec_refill(s.limit, s.interval, tokens(&s, id), t, now).0,
+        None => true,
+        Some(t) => tokens(&s, id) > 0 || due(s.interval, t, now),
     };
-    let ok = l.try_next(id, at(b, now));
+    let ok = l.frag_try_next(id, at(b, now));
     assert!(real_wf(&l, at(b, now)));
-    assert!(ok == (avail > 0), "accepted although no token was available, or refused although one was");
+    assert!(ok == avail, "accepted although no token was available, or refused although one was");
     kani::cover!(ok);
     kani::cover!(s.n == 0 || !ok);
     let mut o = 0u8;
@@ -236,16 +410,15 @@ fn try_next_takes_exactly_one_token_iff_available(n: usize) {
         }
         o += 1;
     }
-    if ok {
-        assert!(real_tokens(&l, id) == avail - 1, "an accepted request did not cost exactly one token");
-        assert!(real_tokens(&l, id) < s.limit);
-    } else {
+    // an accepted request costs exactly one token of the refilled amount; a refused one costs nothing
+    check_refilled(&l, &s, b, id, now, ok as u32);
+    if !ok {
         assert!(real_tokens(&l, id) == 0);
     }
 }
 
 /// ghost invariant J(id, T): at least one token, or the bucket was last refilled no later than T
-fn ghost_j(l: &GenericRateLimiter<u8>, id: u8, t_last_request: Instant) -> bool {
+fn ghost_j(l: &FragLimiter<u8>, id: u8, t_last_request: Instant) -> bool {
     real_tokens(l, id) >= 1 || real_last_refill(l, id).map_or(false, |r| r <= t_last_request)
 }
 
@@ -258,7 +431,7 @@ fn idle_invariant_established_and_preserved(n: usize) {
     if kani::any() {
         let t = any_time();
         kani::assume(s.n == 0 || s.t[s.n - 1] <= t);
-        let _ = l.try_next(id, at(b, t));
+        let _ = l.frag_try_next(id, at(b, t));
         assert!(ghost_j(&l, id, at(b, t)));
     } else {
         let t = any_time(); // the identity's last request
@@ -268,7 +441,7 @@ fn idle_invariant_established_and_preserved(n: usize) {
         kani::assume(ghost_j(&l, id, at(b, t)));
         let other = any_id();
         kani::assume(other != id);
-        let _ = l.try_next(other, at(b, now));
+        let _ = l.frag_try_next(other, at(b, now));
         assert!(ghost_j(&l, id, at(b, t)));
     }
 }
@@ -285,7 +458,7 @@ fn accepts_after_idle_for_limit_times_interval(n: usize) {
     let mut l = build(&s, b);
     kani::assume(ghost_j(&l, id, at(b, t)));
     kani::cover!(s.n == 0 || real_tokens(&l, id) == 0);
-    assert!(l.try_next(id, at(b, now)), "an identity idle for limit*interval was refused");
+    assert!(l.frag_try_next(id, at(b, now)), "an identity idle for limit*interval was refused");
 }
 
 /// the per-IP limiter ignores the peer id: with limit 1, a second request from the
@@ -326,7 +499,44 @@ fn window_bound_with_sub_microsecond_interval() {
     accepted += l.try_next(1, t1) as u32;
     accepted += l.try_next(1, t1) as u32;
     accepted += l.try_next(1, t1) as u32;
-    assert!(accepted <= 2 + 1, "C48: more than limit + floor(elapsed/interval) requests accepted in a window (sub-microsecond interval)");
+    kani::assert(accepted <= 2 + 1, "C48: more than limit + floor(elapsed/interval) requests accepted in a window (sub-microsecond interval)");
+}
+
+/// The window bound on the refill step at NANOSECOND granularity, symbolic: one live
+/// bucket, any limit, interval 1 ns .. 65 us, timestamps within 8 ms: the tokens a refill
+/// adds never exceed floor(elapsed / interval).  (Kani counterpart of the Verus obligation
+/// `refill_tokens_at_most_floor_elapsed_over_interval`, bounded.)
+#[kani::proof]
+#[kani::unwind(6)]
+fn refill_gain_at_most_floor_of_elapsed_over_interval_ns() {
+    let z: Instant = unsafe { std::mem::zeroed() };
+    let limit: u32 = kani::any();
+    kani::assume(limit >= 1);
+    let interval_ns: u32 = kani::any();
+    kani::assume(interval_ns >= 1 && interval_ns < (1 << 16));
+    let t: u32 = kani::any();
+    let now: u32 = kani::any();
+    kani::assume(t <= now && now < (1 << 23));
+    let bal: u32 = kani::any();
+    kani::assume(bal < limit);
+    let mut l = FragLimiter::<u8> {
+        limit: NonZeroU32::new(limit).unwrap().into(),
+        interval: Duration::new(0, interval_ns),
+        refill_schedule: Fifo::new(),
+        buckets: Default::default(),
+    };
+    l.buckets.insert(1, bal);
+    l.refill_schedule.push_back((z + Duration::new(0, t), 1));
+    l.frag_refill(z + Duration::new(0, now));
+    let after = real_tokens(&l, 1);
+    assert!(after <= limit && after >= bal);
+    let gain = (after - bal) as u64;
+    kani::cover!(gain > 0);
+    kani::cover!(gain == 0);
+    kani::assert(
+        gain * (interval_ns as u64) <= (now - t) as u64,
+        "C48: refill added more than floor(elapsed/interval) tokens (sub-microsecond parts are truncated by as_micros)",
+    );
 }
 
 /// Vacuity canary: must FAIL (a drained bucket refuses).
@@ -336,7 +546,7 @@ fn canary_try_next_always_accepts(n: usize) {
     let now = any_time();
     kani::assume(s.n == 0 || s.t[s.n - 1] <= now);
     let mut l = build(&s, b);
-    assert!(l.try_next(any_id(), at(b, now)));
+    assert!(l.frag_try_next(any_id(), at(b, now)));
 }
 
 // One harness per number of live buckets (0, 1, 2): the schedule is a heap VecDeque,
@@ -344,7 +554,7 @@ fn canary_try_next_always_accepts(n: usize) {
 macro_rules! per_bucket_count {
     ($($name:ident => $f:ident($n:expr);)*) => {$(
         #[kani::proof]
-        #[kani::unwind(6)]
+        #[kani::unwind(5)]
         fn $name() {
             $f($n)
         }
